@@ -142,6 +142,24 @@ def run(ctx, spec):
                 check_dist(ctx, SUB.subseq_segment_dist, child, parent, edges)
                 cnt += 1
                 nw += 1
+        # very sparse parents over 300-900 positions (gaps of 256+), children that are contained except for ONE stray
+        # element somewhere (most often inside a long gap)
+        for _ in range(400 if ctx.tier == "quick" else 6000):
+            bits = rng.choice([300, 520, 600, 900])
+            parent = 0
+            for _k in range(rng.randint(1, 5)):
+                parent |= 1 << rng.randrange(bits)
+            if rng.random() < 0.5:
+                parent |= 1  # an element at the very start, then nothing for a long stretch
+            child = parent & rng.getrandbits(bits)
+            if rng.random() < 0.6:
+                child |= 1 << rng.randrange(bits)  # stray element: almost surely not in the parent
+            if child == 0:
+                continue
+            for edges in (True, False):
+                check_dist(ctx, SUB.subseq_segment_dist, child, parent, edges)
+                cnt += 1
+                nw += 1
         ctx.count("mon.dist_wide", nw)
         ctx.count("evaluations", cnt)
         ctx.count("mon.dist", cnt)
